@@ -75,6 +75,9 @@ fn duration_strategy() -> BoxedStrategy<u64> {
         2 => (1u64..=1_000_000).prop_map(|us| us * 1_000),
         1 => (1u64..=10).prop_map(|d| d * DAY_NS),
         1 => 0u64..=10 * DAY_NS,
+        // exact powers of two in seconds (2^-10 s .. 2^14 s): with a power-of-two multiplier the
+        // product hits 2^64 s, the f64 image of Duration::MAX, exactly
+        1 => (0u32..=24).prop_map(|k| (1_000_000_000u64 << 14) >> k),
     ]
     .boxed()
 }
@@ -95,7 +98,7 @@ fn case_strategy(tier: Tier) -> BoxedStrategy<BackoffCase> {
     let func = (
         0u8..6,
         duration_strategy(),
-        prop_oneof![2 => Just(100u32), 3 => Just(200u32), 1 => Just(150u32), 1 => Just(1000u32), 3 => 100u32..=1000],
+        prop_oneof![2 => Just(100u32), 3 => Just(200u32), 1 => Just(400u32), 1 => Just(800u32), 1 => Just(150u32), 1 => Just(1000u32), 3 => 100u32..=1000],
         cap_strategy(),
         prop_oneof![1 => Just(0u8), 1 => Just(100u8), 1 => Just(50u8), 2 => 0u8..=100],
         attempt_strategy(),
